@@ -101,6 +101,9 @@ def _str_values(rng, n):
     if n >= 2 and rng.random() < 0.03:
         base = S.longtexts(rng)
         return [base[i % len(base)] for i in range(n)]
+    if n >= 3 and rng.random() < 0.04:
+        base = S.runlengths(rng) if rng.random() < 0.7 else S.manygroups(rng)
+        return [base[i % len(base)] for i in range(n)]
     if n and rng.random() < 0.05:
         base = S.lookalikes(rng)
         return [base[i % len(base)] for i in range(n)]
